@@ -45,6 +45,7 @@ func checkC20(r *core.Run) {
 			c20Req(r, p)
 			c20Links(r, p)
 			c20Sym(r, p)
+			c20ReleaseOnlyEmpty(r, p, "R-C20-links")
 		}
 	}
 }
@@ -389,6 +390,18 @@ func c20Key(v ssa.Value, d int) string {
 			}
 		}
 	case *ssa.Parameter:
+		// positional, not by source name; the class and the address keep mnemonic tags by their type
+		switch an.TypeName(x.Type()) {
+		case "int":
+			return "param:class"
+		case "uintptr":
+			return "param:p"
+		}
+		for i, q := range x.Parent().Params {
+			if q == x {
+				return fmt.Sprintf("param#%d", i)
+			}
+		}
 		return "param:" + x.Name()
 	case *ssa.Phi:
 		return "phi:" + x.Name()
@@ -903,4 +916,81 @@ func c20LiveCount(r *core.Run, p *core.Program, sfx string) {
 	}
 	sort.Strings(bad)
 	r.Check(len(bad) == 0 && nret >= 4, rule, "live-count"+sfx, "-", fmt.Sprintf("%d counter updates in Malloc/Free/uintptrFree; %d returns checked, each passes exactly one update of the right sign", len(sites), nret), strings.Join(bad, "; "))
+}
+
+// c20ReleaseOnlyEmpty: freeing a slot hands the whole page back (non-zero result: the caller caches or unmaps
+// it) only when the page's count of used slots is known to be 0 at that point.  A page released while its
+// header still counts a used slot goes into the page cache with that header; the code that takes pages from
+// the cache sets only class, free count and links, so the stale counters (used, bump position, free list)
+// make later allocations of the class overlap other memory.
+func c20ReleaseOnlyEmpty(r *core.Run, p *core.Program, rule string) {
+	fn := p.Func("lib/others/memory.(*Allocator).uintptrFreeShared")
+	const key = "release-only-empty"
+	if fn == nil {
+		r.Fail(rule, key, "-", "the shared free function was not found")
+		return
+	}
+	n := 0
+	bad := ""
+	an.Instrs(fn, func(i ssa.Instruction) {
+		ret, ok := i.(*ssa.Return)
+		if !ok || len(ret.Results) != 1 {
+			return
+		}
+		if c, isC := an.ConstOf(ret.Results[0]); isC && c.Sign() == 0 {
+			return
+		}
+		n++
+		// the values of 'used' that reach this return
+		possible := map[int64]bool{0: true, 1: true, 2: true, 3: true, 65535: true}
+		known := false
+		for _, dc := range an.DomConds(ret.Block()) {
+			x, y, rel, ok := dc.Cmp()
+			if !ok {
+				continue
+			}
+			k, isC := an.ConstOf(y)
+			ld, isLd := c17StripConv(x).(*ssa.UnOp)
+			if !isC || !isLd || !k.IsInt64() {
+				continue
+			}
+			if f, _ := an.FieldOf(ld.X); f != "lib/others/memory.page_header.used" {
+				continue
+			}
+			known = true
+			for v := range possible {
+				holds := false
+				switch rel {
+				case token.EQL:
+					holds = v == k.Int64()
+				case token.NEQ:
+					holds = v != k.Int64()
+				case token.LSS:
+					holds = v < k.Int64()
+				case token.LEQ:
+					holds = v <= k.Int64()
+				case token.GTR:
+					holds = v > k.Int64()
+				case token.GEQ:
+					holds = v >= k.Int64()
+				}
+				if !holds {
+					delete(possible, v)
+				}
+			}
+		}
+		if !known {
+			bad = "the page is handed back at " + p.Pos(ret.Pos()) + " without a test of its count of used slots"
+		} else if len(possible) != 1 || !possible[0] {
+			var vs []string
+			for v := range possible {
+				if v != 0 {
+					vs = append(vs, fmt.Sprint(v))
+				}
+			}
+			sort.Strings(vs)
+			bad = "the page is handed back at " + p.Pos(ret.Pos()) + " while its header may count " + strings.Join(vs, "/") + " used slots"
+		}
+	})
+	r.Check(bad == "" && n > 0, rule, key, p.Pos(fn.Pos()), "a page is handed back only with a used count of 0", bad)
 }
